@@ -208,7 +208,7 @@ impl Chain {
     pub fn new() -> Chain {
         let mut bank = BTreeMap::new();
         for d in 0..3u8 {
-            bank.insert((SWAP, d), 1_000_000_000_000_000_000_000_000_000_000u128);
+            bank.insert((SWAP, d), 10_000_000_000_000_000_000_000_000_000_000_000_000u128);
         }
         Chain {
             time: 1_000_000,
